@@ -87,7 +87,7 @@ def _shift_term(t, off_l, off_b, cont):
 
 
 def inlined(facts, body, depth=0, stack=(), t1=True, t2=True):
-    key = (id(facts), body.uid, t1, t2)
+    key = (facts.serial, body.uid, t1, t2)
     if depth == 0 and key in _cache:
         return _cache[key]
     blocks = copy.deepcopy(body.blocks)
